@@ -6,23 +6,35 @@ from common import sh2
 
 LEVEL = "proof"
 MANIFEST = {
-    "technique": "Coq proof of totality + linear cost over a hand-written Gallina model (explicit panic / fuel / append "
-                 "counters) + differential correspondence of outcome classes (extracted OCaml vs Go in isolated worker "
-                 "processes) + hostile-input search over every anchored entry point",
-    "level_text": "Theorems (coq/c16/C16Theorems.v), for ALL byte lists with no hypothesis: each length-field NAL-unit walker of "
-                  "avc and hevc (GetNalusFromSample, FindNaluTypes, FindNaluTypesUpToFirstVideoNALU, ContainsNaluType, "
-                  "IsIDRSample/IsRAPSample, HasParameterSets, GetParameterSets, ConvertSampleToByteStream), as repaired by the "
-                  "fix: commits, returns a value or an error (never Panic, never OutOfFuel) after at most |bs|/4 loop "
-                  "iterations and at most that many appends. The model is tied to /repo on every run: outcome class and "
-                  "value of every walker on exhaustive short samples, hostile length fields and mutated well-formed samples "
-                  "must equal the model's. Stage 2 theorems: the EBSP bit reader (Read, ReadExpGolomb) never exhausts its loop fuel and "
-                  "consumes the bits it returns, sticky error is O(1); the guarded count-driven loop shape used by the repairs is "
-                  "total for every count (unguarded shape refuted); sei.DecodePicTimingHevcSEI is total for every payload and "
-                  "parameter set (also tied to /repo by correspondence of class and decoded values). Explored only (no "
-                  "theorem): SPS/PPS/slice parsers, other SEI decoders, ADTS/ASC, config records, Annex B scanners.",
+    "technique": "Coq proof of totality + linear cost over hand-written Gallina models (explicit panic / fuel / append "
+                 "counters; a small program logic over the state-monad parser models for the bit-level parsers) + "
+                 "differential correspondence of outcome classes and projected values (extracted OCaml vs Go in isolated "
+                 "worker processes, on the same hostile generators as the search) + hostile-input search over every anchored "
+                 "entry point incl. the SPS -> PPS -> slice pipelines",
+    "level_text": "Theorems, for ALL byte lists with no hypothesis (three files: coq/c16/C16Theorems.v, C16TheoremsParse.v, "
+                  "C16TheoremsAux.v; every theorem closed under the global context): a value or an error, never Panic, never "
+                  "OutOfFuel, iterations and sizes of built lists bounded linearly in the input, for (1) each length-field NAL-unit "
+                  "walker of avc and hevc as repaired (<= |bs|/4 iterations and appends); (2) the EBSP bit reader (Read, "
+                  "ReadExpGolomb, sticky error); (3) avc.ParseSPSNALUnit (every reader state; all allocations constant: <= 255 POC "
+                  "cycle entries, <= 12 scaling lists of <= 64, <= 32 HRD entries), avc.ParsePPSNALUnit for every spsMap "
+                  "(slice_group_id <= 8|nalu|+1 entries whatever the 2^64 count), avc.ParseSliceHeader for EVERY content of both "
+                  "maps (arbitrary SPS/PPS record values; the two `for{}` loops and the pred-weight loops end within 8|nalu|+10 "
+                  "iterations), avc.GetSliceTypeFromNALU; the PPS/slice wrappers provably equal the C15 models wherever those do "
+                  "not hit their 2^16 cap; (4) sei.ExtractSEIData (<= |data|/2 messages, payload bytes <= |data|, ReadBytes "
+                  "allocation <= 255(|data|+2)), DecodeTimeCodeSEI + String (pinned String refuted), DecodePicTimingAvcSEIHRD for "
+                  "every external parameter, DecodePicTimingHevcSEI for every parameter set, the user-data decoders / ParseCEA608 / "
+                  "ExtractCEA608sei, MDCV, CLL (index and slice expressions modelled as PARTIAL operations and proved in range), "
+                  "avc.ParseSEINalu / hevc.ParseSEINalu for every SPS-derived context; (5) aac.DecodeADTSHeader (<= 188 scan "
+                  "iterations) and DecodeAudioSpecificConfig; (6) the Annex B scanners and byte-stream helpers of avc/hevc (models "
+                  "of C14; the word-scanner and ConvertByteStreamToNaluSample under bytes < 256). Every modelled entry point is tied to "
+                  "/repo on every run: outcome class and projected values on the hostile generators must equal the extracted model's. "
+                  "Explored only (search, no theorem): the HEVC SPS/PPS/slice-header parsers (no model in C16; hostile field-level "
+                  "pipelines), String/Payload of the remaining messages, cmd/mp4ff-nallister / pslister on hostile files.",
     "level_note": "Trusted: Coq kernel, extraction, OCaml/Go glue, worker classification (wall-clock budget, runtime/metrics "
-                  "allocation counter, watchdog + ulimit -v). Go int is taken to be 64 bit (no wrap of len+2^32). Real time and "
-                  "heap are observed, not proved.",
+                  "allocation counter, watchdog + ulimit -v). Models of other properties are imported read-only (C13 reader, C14 "
+                  "scanners, C15 AVC parsers, C17 SEI, C18 AAC); where they are total but Go indexes, C16 wraps them with partial "
+                  "operations and proves agreement. C15's constant loop caps are replaced by data-derived fuel in C16ParseModel.v. "
+                  "Go int is taken to be 64 bit (no wrap of len+2^32). Real time and heap are observed, not proved.",
 }
 
 ULIMIT_KB = 2000000
@@ -49,7 +61,10 @@ def run(ctx):
     ctx.cov["trusted_base"] = common.TRUSTED_BASE_COMMON + [
         "model: coq/c16/C16Model.v is a hand transcription of avc/nalus.go, avc/avc.go (walkers), "
         "avc/annexb.go ConvertSampleToByteStream, hevc/hevc.go (walkers), sei/sei1_hevc.go DecodePicTimingHevcSEI after the "
-        "fix: commits; bit reader model imported from coq/c13/C13Model.v",
+        "fix: commits; bit reader model imported from coq/c13/C13Model.v; coq/c16/C16ParseModel.v (AVC SPS/PPS/slice-header "
+        "parsers = coq/c15/C15Model.v with data-derived loop fuel, avc.GetSliceTypeFromNALU), C16AuxModel.v (partial-operation "
+        "wrappers of the C17 SEI decoders, ExtractSEIData with the ReadBytes loop, ADTS scan with counters), C16SeiNaluModel.v "
+        "(avc/hevc ParseSEINalu), models of C14 (Annex B) and C18 (ADTS/ASC) imported read-only",
         "outcome classification by the harness parent: ok|err from the call, panic by recover, hang by wall clock "
         "(2 s, confirmed with 6 s), overalloc by allocation counter > 512*len+1MiB or runtime out-of-memory abort",
     ]
@@ -76,7 +91,10 @@ def run(ctx):
     ctx.cov["distinct_nontrivial"] += distinct
     ctx.notes["correspondence"] = {
         "cases": len(lines), "mismatches": len(mism), "distinct_cases": distinct, "classes": classes,
-        "distribution": "sei.DecodePicTimingHevcSEI on fixed + random/field-soup payloads x random external flags and widths; 15 walkers on: fixed witnesses; every string over {00,01,04,fc,ff} up to length 3 (5 thorough); "
+        "distribution": "stage 2/3 (avc SPS/PPS/slice/GetSliceType/ParsePSAndSlice pipeline, avc+hevc ParseSEINalu, ExtractSEIData, 8 SEI decoders, "
+                        "ADTS, ASC, 7 Annex B helpers): the search generators (captured seeds, every prefix of a seed, mutants, field soups with "
+                        "hostile ue(v), structured pipelines, raw short inputs), n/20 per target; reference parameter sets sent in CTX lines and "
+                        "parsed by the model itself; sei.DecodePicTimingHevcSEI on fixed + random/field-soup payloads x random external flags and widths; 15 walkers on: fixed witnesses; every string over {00,01,04,fc,ff} up to length 3 (5 thorough); "
                         "12 hostile 32-bit length fields x every tail over {00,05,ff} of length 1..4 (6 thorough); "
                         "%d generated samples (0-7 NAL units, typed header bytes) mutated: 25%% well-formed, 15%% truncated, "
                         "30%% hostile length field (0,1,rem-1,rem,rem+1,2^31,2^32-k, wrap-to-position), 10%% trailing bytes, "
@@ -118,8 +136,8 @@ def run(ctx):
                       "model/implementation disagree on %d cases" % len(mism), no_input=True)
     for p in prs:
         ctx.proof_violation_if_broken(p, "c16 search: %d evaluations, no failing input" % ctx.notes.get("search_evaluations", 0))
-    ctx.cov["rule"] = ("corr: outcome class (ok|err|panic|hang|overalloc) and value of the 15 modelled walkers on every generated "
-                       "sample; distinct = distinct (function,input,arg,class,value) lines; search: every target must end in ok|err "
+    ctx.cov["rule"] = ("corr: outcome class (ok|err|panic|hang|overalloc) and value of the 15 modelled walkers and class + projected "
+                       "values of 35 more modelled entry points on every generated sample; distinct = distinct (function,input,arg,class,value) lines; search: every target must end in ok|err "
                        "with allocation <= 512*len+1MiB inside the wall-clock budget, each call in a worker subprocess")
 
 
